@@ -270,6 +270,7 @@ func (w *World) RunClientWorld() {
 		simrt.ParkTimeout(&w.joinQ, left)
 	}
 	w.TearingDown = true
+	w.watchTeardown()
 	if !cs.closed {
 		cs.closeInvoke = simrt.Seq()
 		cs.closeT = simrt.Now()
